@@ -407,11 +407,15 @@ def exit_status(ctx, rep, rid="EXIT"):
                       "exit(0) elsewhere: %d)" % (ok_true, ok_false, len(stray_zero)), site(main, pairs[0][2]) if pairs else "")
 
 
-def _assigned_consts(body, operand):
+def _assigned_consts(body, operand, depth=0):
+    """[(block, constant)] for an operand that is a constant or a local assigned only constants (possibly through copies of
+    another such local: `let code = if ok {0} else {1}; exit(code)`); None otherwise"""
     p = operand.get("c") or operand.get("m")
     if p is None:
         k = operand.get("k", {})
         return [(0, k.get("v"))] if "v" in k else None
+    if p.get("p"):
+        return None
     l = p["l"]
     out = []
     for bi, si, kind, payload in body.defs().get(l, []):
@@ -420,6 +424,11 @@ def _assigned_consts(body, operand):
         rv = payload["rv"]
         if rv["r"] == "use" and "k" in rv["o"] and rv["o"]["k"].get("v") is not None:
             out.append((bi, rv["o"]["k"]["v"]))
+        elif rv["r"] == "use" and depth < 3:
+            sub = _assigned_consts(body, rv["o"], depth + 1)
+            if not sub:
+                return None
+            out.extend(sub if len(sub) > 1 else [(bi, sub[0][1])])
         else:
             return None
     return out
